@@ -622,6 +622,43 @@ theorem C06_doc (htmlAttrs bodyAttrs : List Attr) (texts : List Str) (fmts : Lis
 example : titleAsString [['H','o','m','e']] [([], [' ','|',' ','<','/','t','i','t','l','e','>'])] =
     some ['H','o','m','e',' ','|',' ','<','/','t','i','t','l','e','>'] := by decide
 
+/-! ### where the `<Html/>` / `<Body/>` attribute strings land -/
+
+/-- what is meant: every piece at its own place in the shell -/
+def docIntended (hs : Str) (title : Option Str) (metas : List Node) (bs : Str) : Str :=
+  sShellOpen ++ hs ++ sShellHead ++ headHtml title metas ++ sShellBody ++ bs ++ sShellEnd
+
+/-- with the `<body` search restricted to the part behind the head (hooks/fix-c06-2.patch) the code
+builds exactly the intended chunk, whatever the head contains -/
+theorem C06_doc_placement_fixed (hs bs : Str) (title : Option Str) (metas : List Node) :
+    docHtmlImpl true hs title metas bs = docIntended hs title metas bs := by
+  simp [docHtmlImpl, docIntended, insertAfterFirst, sShellPre, sShellPost, sLtHtml, sLtBody, sShellOpen,
+    sShellHead, sShellBody, sShellEnd, List.isPrefixOf]
+
+/-- `if (a<body.length) f()` as the content of a `<Script/>` -/
+def payloadBodyScript : List Node :=
+  [.elem tScript [] [.text ['i','f',' ','(','a','<','b','o','d','y','.','l','e','n','g','t','h',')',' ','f','(',')']]]
+
+/-- F-C06-5 (code as it is): `modified_chunk.find("<body")` searches the whole chunk, head included, so
+harmless script text containing `<body` receives the `<Body/>` attributes: the script is corrupted and
+`<body>` stays bare -/
+theorem C06_body_attrs_witness :
+    docHtmlImpl false [] none payloadBodyScript [' ','c','l','a','s','s','=','"','d','"'] =
+      sShellPre ++ sHeadMarker ++
+        ['<','s','c','r','i','p','t','>','i','f',' ','(','a','<','b','o','d','y',' ','c','l','a','s','s','=','"','d','"',
+         '.','l','e','n','g','t','h',')',' ','f','(',')','<','/','s','c','r','i','p','t','>'] ++ sShellPost ∧
+    docHtmlImpl false [] none payloadBodyScript [' ','c','l','a','s','s','=','"','d','"'] ≠
+      docIntended [] none payloadBodyScript [' ','c','l','a','s','s','=','"','d','"'] := by
+  decide
+
+/-- the full placement statement for the code as it is -/
+def C06_doc_placement_full : Prop :=
+  ∀ (hs bs : Str) (title : Option Str) (metas : List Node),
+    docHtmlImpl false hs title metas bs = docIntended hs title metas bs
+
+theorem C06_doc_placement_full_false : ¬ C06_doc_placement_full := fun h =>
+  C06_body_attrs_witness.2 (h _ _ _ _)
+
 /-! ## tables regenerated from the source (extract.py EscapeTables, Elements) -/
 
 theorem C06_table_text : Leptos.Gen.EscapeTables.escapeText = textTable := by decide
